@@ -325,8 +325,8 @@ where
 
     #[inline(never)]
     fn init(&mut self) -> Result<bool, Error> {
-        let n = fill_buf(&mut self.buf_reader)?;
-        if n == 0 {
+        fill_buf(&mut self.buf_reader)?;
+        if self.get_buf().is_empty() {
             self.state = State::Finished;
             return Ok(false);
         }
@@ -391,24 +391,30 @@ where
         make_room: bool,
     ) -> Result<bool, Error> {
         loop {
-            if self.get_buf().len() < self.buf_reader.capacity() {
-                // EOF reached, there will be no next record
-                self.state = State::Finished;
-                return self.check_end(incomplete_pos);
-            } else if !make_room || self.buf_pos.pos.0 == 0 {
-                // first record already incomplete -> buffer too small
-                self.grow()?;
-            } else {
-                // not the first record -> buffer may be big enough
-                self.make_room(incomplete_pos);
+            if self.get_buf().len() == self.buf_reader.capacity() {
+                if !make_room || self.buf_pos.pos.0 == 0 {
+                    // first record already incomplete -> buffer too small
+                    self.grow()?;
+                } else {
+                    // not the first record -> buffer may be big enough
+                    self.make_room(incomplete_pos);
+                }
             }
-
+            // If the buffer is not full here, EOF was reached before, or an earlier
+            // refill was interrupted by an I/O error. Only a refill that succeeds
+            // without filling the buffer tells that EOF was reached.
             fill_buf(&mut self.buf_reader)?;
 
             if let Some(pos) = self.search_incomplete(incomplete_pos)? {
                 incomplete_pos = pos;
             } else {
                 return Ok(true);
+            }
+
+            if self.get_buf().len() < self.buf_reader.capacity() {
+                // EOF reached, there will be no next record
+                self.state = State::Finished;
+                return self.check_end(incomplete_pos);
             }
         }
     }
